@@ -437,6 +437,12 @@ struct SstBuilder {
 }
 
 pub fn encode(doc: &XlsxDoc) -> Vec<u8> {
+    let (parts, knobs) = parts(doc);
+    zipw::pack(parts, &knobs)
+}
+
+/// the package parts before zipping (used by the fault injector) and the zip knobs to use
+pub fn parts(doc: &XlsxDoc) -> (Vec<(String, Vec<u8>)>, ZipKnobs) {
     let enc = &doc.enc;
     let mut parts: Vec<(String, Vec<u8>)> = Vec::new();
 
@@ -916,7 +922,7 @@ pub fn encode(doc: &XlsxDoc) -> Vec<u8> {
     if doc.vba.is_some() {
         knobs.name_case = 0;
     }
-    zipw::pack(parts, &knobs)
+    (parts, knobs)
 }
 
 // ---------------------------------------------------------------------------------------------
